@@ -56,6 +56,9 @@ STRING_VARS = {
     "platform_system": ["Linux", "Windows", "Darwin"],
 }
 EXTRA_NAMES = ["foo", "bar", "Foo_Bar", "foo-bar", "baz"]
+# set-valued variables of lock files (PEP 751): `"name" in extras`, `"name" not in dependency_groups`; evaluated with
+# context="lock_file" (sessions that mention them never mention the scalar `extra`)
+MEMBER_VARS = {"extras": ["foo", "bar", "Foo_Bar", "foo-bar"], "dependency_groups": ["dev", "test", "Dev"]}
 
 
 def gen_atom(rng: random.Random, var: str, *, reversed_ok=True) -> str:
@@ -79,6 +82,8 @@ def gen_atom(rng: random.Random, var: str, *, reversed_ok=True) -> str:
         # one-segment elements are outside "python_version in/not in lists")
         vals = [v for v in vals if v.count(".") == 1] or ["3.8"]
         return f'{var} {rng.choice(["in", "not in"])} "{rng.choice([", ", ","]).join(vals)}"'
+    if var in MEMBER_VARS:
+        return f'"{rng.choice(MEMBER_VARS[var])}" {rng.choice(["in", "in", "not in"])} {var}'
     if var == "extra":
         n = rng.choice(EXTRA_NAMES)
         op = rng.choice(["==", "==", "!="])
@@ -222,6 +227,9 @@ def build_grid(texts: list[str], rng: random.Random, cap: int = 96):
             axes.append((var, _string_points(lits[var])))
     if "extra" in lits:
         axes.append(("extra", _extra_points(lits["extra"])))
+    for var in MEMBER_VARS:
+        if var in lits:
+            axes.append((var, _extra_points(lits[var])[:6]))
     total = 1
     for _, pts in axes:
         total *= len(pts)
@@ -234,8 +242,8 @@ def build_grid(texts: list[str], rng: random.Random, cap: int = 96):
     for combo in combos:
         env = {}
         for (var, _), val in zip(axes, combo):
-            if var == "extra":
-                env["extra"] = list(val)
+            if var == "extra" or var in MEMBER_VARS:
+                env[var] = list(val)
             else:
                 env[var] = val
         if "python_full_version" in env:
@@ -256,8 +264,12 @@ BASE_ENV = {
 def real_env(env: dict) -> dict:
     e = dict(BASE_ENV)
     for k, v in env.items():
-        e[k] = set(v) if k == "extra" else v
+        e[k] = set(v) if (k == "extra" or k in MEMBER_VARS) else v
     return e
+
+
+def context_of(env: dict) -> str:
+    return "lock_file" if any(k in env for k in MEMBER_VARS) else "metadata"
 
 
 def reference_table(text: str, envs: list[dict]) -> list[bool]:
@@ -271,15 +283,15 @@ def reference_table(text: str, envs: list[dict]) -> list[bool]:
         for e in envs:
             env = dict(BASE_ENV)
             for k, v in e.items():
-                env[k] = (v[0] if v else "") if k == "extra" else v
-            out.append(bool(pm.evaluate(env)))
+                env[k] = (v[0] if v else "") if k == "extra" else set(v) if k in MEMBER_VARS else v
+            out.append(bool(pm.evaluate(env, context=context_of(e))))
         return out
     except Exception:  # noqa: BLE001
         return []
 
 
 def table_of(m, envs: list[dict]) -> list[bool]:
-    return [bool(m.evaluate(real_env(e))) for e in envs]
+    return [bool(m.evaluate(real_env(e), context=context_of(e))) for e in envs]
 
 
 # --------------------------------------------------------------------------- projection
@@ -437,7 +449,8 @@ def pick_vars(rng: random.Random) -> list[str]:
     pools = [["python_version", "python_full_version"], ["python_version", "python_full_version", "sys_platform"],
              ["sys_platform", "os_name"], ["python_version", "extra", "sys_platform"], ["platform_release", "platform_machine"],
              ["python_full_version", "extra"], ["sys_platform", "platform_machine", "implementation_name"], ["python_version", "os_name", "extra"],
-             ["extra", "sys_platform"], ["platform_system", "sys_platform", "python_version"]]
+             ["extra", "sys_platform"], ["platform_system", "sys_platform", "python_version"],
+             ["extras", "sys_platform"], ["extras", "dependency_groups", "os_name"], ["dependency_groups", "python_version"]]
     return rng.choice(pools)
 
 
@@ -513,8 +526,19 @@ def law_session(sid: int, seed: int) -> dict:
     variables = pick_vars(rng)
     set_atom_pool(rng, variables, 4)
     regs = []
-    for _ in range(3):
-        r = s.parse(gen_marker(rng, variables, rng.choice([0, 1, 1])))
+    texts = [gen_marker(rng, variables, rng.choice([0, 1, 1])) for _ in range(3)]
+    if rng.random() < 0.3:
+        # a and b cut a HOLE out of one version variable (`v < lo`, `v >= hi`): their union is re-rendered by the
+        # specifier layer (`!= X.Y.*`, `!= V`), their parts recombine under distributivity / absorption
+        var = rng.choice(["python_full_version", "python_full_version", "python_version", "platform_release"])
+        from packaging.version import Version
+        lo, hi = sorted(rng.sample(VERSION_VARS[var], 2), key=Version)
+        texts[0] = f'{var} {rng.choice(["<", "<", "<="])} "{lo}"'
+        texts[1] = f'{var} {rng.choice([">=", ">=", ">"])} "{hi}"'
+        if rng.random() < 0.5:
+            texts[2] = gen_atom(rng, var, reversed_ok=False)
+    for t in texts:
+        r = s.parse(t)
         if r is None:
             return s.finish(seed + 1)
         regs.append(r)
